@@ -794,6 +794,14 @@ func (g *Gen) globalFacts(st *State, name string, t types.Type) {
 		val := g.compTerm(g.entry, "V|"+name+"|#val", sInt)
 		id := 500000 + len(g.globalsSeen)
 		g.extraAxioms = append(g.extraAxioms, fmt.Sprintf("(> %s 0)", tag), fmt.Sprintf("(= %s %d)", val, id))
+		if i := strings.LastIndex(name, "."); i > 0 && !strings.Contains(name[:i], ".") {
+			// standard-library sentinels (io.EOF, ...) are made by errors.New: dynamic type *errors.errorString
+			k := "*errors.errorString"
+			if _, ok := g.typeIDs[k]; !ok {
+				g.typeIDs[k] = len(g.typeIDs) + 1
+			}
+			g.extraAxioms = append(g.extraAxioms, fmt.Sprintf("(= %s %d)", tag, g.typeIDs[k]))
+		}
 		g.note("package-level error variables are non-nil, pairwise distinct and never reassigned")
 	}
 }
@@ -1436,10 +1444,10 @@ func (g *Gen) makeInterface(fr *frame, st *State, x *Value, xt types.Type, it ty
 	tag := g.typeID(xt)
 	sh := g.W.shapes.shape(xt)
 	if len(sh) == 1 && sh[0].Sort == sInt && !strings.HasPrefix(x.L[0], "?") {
-		return &Value{T: it, L: []string{tag, x.L[0]}}
+		return &Value{T: it, L: []string{tag, x.L[0]}, Dyn: xt}
 	}
 	if len(sh) == 0 {
-		return &Value{T: it, L: []string{tag, "0"}}
+		return &Value{T: it, L: []string{tag, "0"}, Dyn: xt}
 	}
 	if x.LV != nil && strings.HasPrefix(x.L[0], "?") {
 		g.errorf("%s: interior pointer boxed into interface (unsupported)", funcKey(fr.fn))
@@ -1449,7 +1457,7 @@ func (g *Gen) makeInterface(fr *frame, st *State, x *Value, xt types.Type, it ty
 	o := g.newObject(st)
 	lv := &LValue{Kind: lvBox, Obj: o, Root: xt, T: xt}
 	g.store(st, lv, x)
-	return &Value{T: it, L: []string{tag, o}}
+	return &Value{T: it, L: []string{tag, o}, Dyn: xt}
 }
 
 func (g *Gen) unbox(st *State, iv *Value, t types.Type) *Value {
@@ -1549,12 +1557,12 @@ func (g *Gen) convert(fr *frame, st *State, x *Value, from, to types.Type) *Valu
 // bytesVal: abstract identity of the byte content of a []byte value in the current heap.
 func (g *Gen) bytesVal(st *State, s *Value) string {
 	c := g.compTerm(st, g.elemCompKey(types.Typ[types.Uint8], ""), arrSort(sInt, arrSort(sInt, sInt)))
-	return fmt.Sprintf("(bytesval %s %s %s %s)", c, s.L[0], s.L[1], s.L[2])
+	return fmt.Sprintf("(bytesval %s %s %s)", smtSel(c, s.L[0]), s.L[1], s.L[2])
 }
 
 func (g *Gen) makeBound(fr *frame, st *State, i *ssa.MakeSlice, ln string) {
 	// unbounded allocation guard: only under panics_never; the bound is 2^32 elements unless the contract says otherwise
-	if !g.panicsNever {
+	if !g.panicsNever || (g.fc != nil && g.fc.AllocUnbounded) {
 		return
 	}
 	g.addOblig(st, "safety", g.safetyName("makebound", exprOr(fr.text[i], "make")), fmt.Sprintf("(<= %s %d)", ln, g.W.maxMake()), "allocation size bounded")
